@@ -61,13 +61,15 @@ func c05Gen(seed uint64, i int) *c05Case {
 		g := newProcGen(rng)
 		g.strVar = append([]string{}, caps...)
 		var ss []proc.Stmt
-		switch rng.Intn(5) {
+		switch rng.Intn(6) {
 		case 3:
 			// reads a name it never assigned before: must be the empty string for every match and every
 			// evaluation, whatever earlier matches or earlier `with` items did
 			ss = []proc.Stmt{
 				proc.SSet{Name: "acc", X: proc.EBin{Op: "+", L: proc.EVar{Name: "acc"}, R: proc.EVar{Name: "match"}}},
 				proc.SReturn{X: proc.EBin{Op: "+", L: proc.EVar{Name: "acc"}, R: proc.EStr{V: "."}}}}
+		case 5:
+			ss = []proc.Stmt{proc.SReturn{X: proc.EBin{Op: "+", L: proc.EBin{Op: "+", L: proc.EStr{V: "[%"}, R: proc.EVar{Name: "match"}}, R: proc.EStr{V: "%d]"}}}}
 		case 4:
 			// reads a capture that only some matches bind
 			c := caps[rng.Intn(len(caps))]
@@ -92,7 +94,7 @@ func c05Gen(seed uint64, i int) *c05Case {
 	for k := 0; k < nw; k++ {
 		switch rng.Intn(7) {
 		case 0:
-			cs.with = append(cs.with, gen.WithItem{Kind: "str", S: []string{"", "X", "<>", "a\nb", "-", "'"}[rng.Intn(6)]})
+			cs.with = append(cs.with, gen.WithItem{Kind: "str", S: []string{"", "X", "<>", "a\nb", "-", "'", "%", "%d=%s", "100%%", "\\", "\"q\"", "$1 \\0"}[rng.Intn(12)]})
 		case 1, 2:
 			cs.with = append(cs.with, gen.WithItem{Kind: "var", S: caps[rng.Intn(len(caps))]})
 		case 3:
@@ -131,7 +133,8 @@ func c05Gen(seed uint64, i int) *c05Case {
 	rc.With = cs.with
 	rp.Commands = []gen.Command{rc}
 	cs.repl = trSrc + gen.RenderProgram(&rp)
-	sm := gen.NewSampler(rng, p, TextAlphaFor(sc.Alpha))
+	ta := append(TextAlphaFor(sc.Alpha), '%', '%', '\\', '$')
+	sm := gen.NewSampler(rng, p, ta)
 	base := sm.Inputs(c.Body, 6, maxLenFor(p, 10))
 	cs.texts = base
 	if len(base) >= 2 {
